@@ -174,6 +174,41 @@ m("c12.4-digits", "core/codec.go", "\t\tif b < '0' || b > '9' {", "\t\tif b < '+
 m("c17.7-arity-lt", "core/codec/commands.go", "\t\tif int(nargs) != n {", "\t\tif int(nargs) > n {", "C17", "C17.7")
 m("c17.7-miss-get", "core/codec/commands.go", "\t\treturn checkArgs(v, n)\n\t}\n\treturn UNKNOWN\n}", "\t\treturn checkArgs(v, n)\n\t}\n\treturn ReqGet\n}", "C17", "C17.7")
 
+
+# ---- C19 (buffers) and the rules added after the third round
+LL, RB, ERL = "core/pkg/buffer/linkedlist/linked_list_buffer.go", "core/pkg/buffer/ring/ring_buffer.go", "core/pkg/buffer/elastic/elastic_ring_list_buffer.go"
+m("c19.1-pop-keeps-tail", LL, "\tllb.head = b.next\n\tif llb.head == nil {\n\t\tllb.tail = nil\n\t}\n", "\tllb.head = b.next\n", "C19", "C19.1")
+m("c19.1-pushfront-no-tail", LL, "\tif llb.head == nil {\n\t\tb.next = nil\n\t\tllb.tail = b\n\t} else {", "\tif llb.head == nil {\n\t\tb.next = nil\n\t} else {", "C19", "C19.1")
+m("c19.1-peek-from-tail", LL, "\tvar cum int\n\tfor iter := llb.head; iter != nil; iter = iter.next {\n\t\tllb.bs = append(llb.bs, iter.buf)\n\t\tif cum += iter.len(); cum >= maxBytes {\n\t\t\tbreak\n\t\t}\n\t}\n\treturn llb.bs\n}\n\n// PeekWithBytes", "\tvar cum int\n\tfor iter := llb.tail; iter != nil; iter = iter.next {\n\t\tllb.bs = append(llb.bs, iter.buf)\n\t\tif cum += iter.len(); cum >= maxBytes {\n\t\t\tbreak\n\t\t}\n\t}\n\treturn llb.bs\n}\n\n// PeekWithBytes", "C19", "C19.1")
+m("c19.1-pop-returns-new-head", LL, "\tb := llb.head\n\tllb.head = b.next\n", "\tllb.head = llb.head.next\n\tb := llb.head\n\tif b == nil {\n\t\treturn nil\n\t}\n", "C19", "C19.1")
+m("c19.2-pop-no-bytes", LL, "\tllb.size--\n\tllb.bytes -= b.len()\n", "\tllb.size--\n", "C19", "C19.2")
+m("c19.2-pushback-one", LL, "\tb.next = nil\n\tllb.tail = b\n\tllb.size++\n\tllb.bytes += b.len()\n", "\tb.next = nil\n\tllb.tail = b\n\tllb.size++\n\tllb.bytes += llb.size\n", "C19", "C19.2")
+m("c19.2-discard-no-putback", LL, "\t\t\tb.buf = b.buf[n:]\n\t\t\tdiscarded += n\n\t\t\tllb.pushFront(b)\n", "\t\t\tb.buf = b.buf[n:]\n\t\t\tdiscarded += n\n", "C19", "C19.2")
+m("c19.3-grow-n", RB, "\t\trb.grow(rb.size + n - free)\n", "\t\trb.grow(n)\n", "C19", "C19.3")
+m("c19.3-check-size", RB, "\tfree := rb.Available()\n\tif n > free {", "\tfree := rb.Available()\n\tif n > rb.size {", "C19", "C19.3")
+m("c19.4-oldlen-after", RB, "\toldLen := rb.Buffered()\n\t_, _ = rb.Read(newBuf)\n", "\t_, _ = rb.Read(newBuf)\n\toldLen := rb.Buffered()\n", "C19", "C19.4")
+m("c19.4-no-move", RB, "\t_, _ = rb.Read(newBuf)\n\tbsPool.Put(rb.buf)\n", "\tbsPool.Put(rb.buf)\n", "C19", "C19.4")
+m("c19.4-stays-empty", RB, "\trb.size = newCap\n\tif rb.w > 0 {\n\t\trb.isEmpty = false\n\t}\n", "\trb.size = newCap\n", "C19", "C19.4")
+m("c19.5-discard-le", RB, "\tdiscarded = rb.Buffered()\n\tif n < discarded {", "\tdiscarded = rb.Buffered()\n\tif n <= discarded {", "C19", "C19.5")
+m("c19.5-read-no-reset", RB, "\t\tcopy(p, rb.buf[rb.r:rb.r+n])\n\t\trb.r += n\n\t\tif rb.r == rb.w {\n\t\t\trb.Reset()\n\t\t}\n\t\treturn\n", "\t\tcopy(p, rb.buf[rb.r:rb.r+n])\n\t\trb.r += n\n\t\treturn\n", "C19", "C19.5")
+m("c19.5-write-nothing", RB, "\tn = len(p)\n\tif n == 0 {\n\t\treturn\n\t}\n\n\tfree := rb.Available()", "\tn = len(p)\n\n\tfree := rb.Available()", "C19", "C19.5")
+m("c19.6-peekall-swap", RB, "\thead = rb.buf[rb.r:]\n\tif rb.w != 0 {\n\t\ttail = rb.buf[:rb.w]\n\t}\n\n\treturn\n}", "\ttail = rb.buf[rb.r:]\n\tif rb.w != 0 {\n\t\thead = rb.buf[:rb.w]\n\t}\n\n\treturn\n}", "C19", "C19.6")
+m("c19.6-read-offset", RB, "\t\tcopy(p[c1:], rb.buf[:c2])\n", "\t\tcopy(p[c2:], rb.buf[:c2])\n", "C19", "C19.6")
+m("c19.6-conn-peek-order", CN, "\tc.loop.cache.Reset()\n\tc.loop.cache.Write(head)\n\tc.loop.cache.Write(tail)\n\tif inBufferLen >= n {\n\t\treturn c.loop.cache.Bytes(), err\n\t}\n\n\tremaining := n - inBufferLen\n\tc.loop.cache.Write(c.buffer[:remaining])\n\treturn c.loop.cache.Bytes(), err\n}", "\tc.loop.cache.Reset()\n\tc.loop.cache.Write(tail)\n\tc.loop.cache.Write(head)\n\tif inBufferLen >= n {\n\t\treturn c.loop.cache.Bytes(), err\n\t}\n\n\tremaining := n - inBufferLen\n\tc.loop.cache.Write(c.buffer[:remaining])\n\treturn c.loop.cache.Bytes(), err\n}", ["C19", "C08"], "C19.6")
+m("c19.7-discard-whole-n", ERL, "\tn -= discarded\n\tvar m int\n", "\tvar m int\n", "C19", "C19.7")
+m("c19.7-peek-tail-first", ERL, "\treturn mb.listBuffer.PeekWithBytes(n, head, tail)\n", "\treturn mb.listBuffer.PeekWithBytes(n, tail, head)\n", "C19", "C19.7")
+m("c19.7-isempty-or", ERL, "\treturn mb.ringBuffer.IsEmpty() && mb.listBuffer.IsEmpty()\n", "\treturn mb.ringBuffer.IsEmpty() || mb.listBuffer.IsEmpty()\n", ["C19", "C01"], "C19.7")
+m("c19.7-buffered-ring-only", ERL, "\treturn mb.ringBuffer.Buffered() + mb.listBuffer.Buffered()\n", "\treturn mb.ringBuffer.Buffered()\n", "C19", "C19.7")
+m("c19.8-grow-less", RB, "\t\tif newCap <= doubleCap {\n", "\t\tif newCap >= doubleCap {\n", "C19", "C19.8")
+m("c09.5-backlog-skip", EL, "\t\tif !c.inMsgQueue.head.Done {\n\t\t\tcontinue\n\t\t}\n", "\t\tif !c.inMsgQueue.head.Done {\n\t\t\tcontinue\n\t\t}\n\t\tif c.outboundBuffer.Buffered() > 65536 {\n\t\t\tcontinue\n\t\t}\n", "C09", "C09.5")
+m("c15.7-retry-loop", SC, "\t\t\tif retry {\n\t\t\t\tsConn, err, _, addr = ls.getConn(r, slot)\n\t\t\t}\n", "\t\t\tfor retry && err != nil {\n\t\t\t\tsConn, err, retry, addr = ls.getConn(r, slot)\n\t\t\t}\n", "C15", "C15.7")
+m("c16.6-arm-once", MS, "\tmsg.Timeout = time.Now().Add(time.Duration(timeout) * time.Millisecond)\n\ttimeoutTree.ReplaceOrInsert(msg)\n", "\tif msg.Timeout.IsZero() {\n\t\tmsg.Timeout = time.Now().Add(time.Duration(timeout) * time.Millisecond)\n\t\ttimeoutTree.ReplaceOrInsert(msg)\n\t}\n", ["C16", "C15"], "C16.6")
+m("c17.4-merged-frag-len", CS, "\tif len(msg.RspBody) > rc.MsgMaxLength {\n\t\tmsg.Error = codec.ErrMsgRspTooLarge", "\tif len(f.RspBody) > rc.MsgMaxLength {\n\t\tmsg.Error = codec.ErrMsgRspTooLarge", "C17", "C17.4")
+m("c01.7-eagain-err", CN, "\t\tif err == unix.EAGAIN {\n\t\t\t_, _ = c.outboundBuffer.Write(data)\n\t\t\terr = c.loop.poller.ModReadWrite(c.pollAttachment)\n\t\t\treturn\n", "\t\tif err == unix.EAGAIN {\n\t\t\t_, _ = c.outboundBuffer.Write(data)\n\t\t\t_ = c.loop.poller.ModReadWrite(c.pollAttachment)\n\t\t\treturn\n", "C01", "C01.7")
+m("c04.8-release-master-only", "core/redis_pool.go", "\t\tp.isSlave = isSlave\n\t\tp.Release()\n", "\t\tp.isSlave = isSlave\n\t\tif !isSlave {\n\t\t\tp.Release()\n\t\t}\n", "C04", "C04.8")
+m("c10.4-direct-inflight", CN, "func (c *conn) EnqueueOutFrag(f *Frag) {\n\tc.outFragQueue.PushTail(f)\n", "func (c *conn) EnqueueOutFrag(f *Frag) {\n\tif c.outFragQueue.count == 0 && c.outboundBuffer.IsEmpty() {\n\t\tc.enqueueInFrag(f)\n\t\t_, _ = c.write(f.Req)\n\t\treturn\n\t}\n\tc.outFragQueue.PushTail(f)\n", "C10", "C10.4")
+m("c12.6-make-n", CC, "\tresp.Frags = make(map[int32][]string, n)\n", "\tresp.Frags = make(map[int32][]string, n)\n\tresp.Keys = make([]string, 0, n)\n", "C12", "C12.6")
+
 here = os.path.dirname(os.path.abspath(__file__))
 json.dump(M, open(os.path.join(here, "mutations.json"), "w"), indent=1)
 print(len(M), "mutations")
